@@ -7,7 +7,8 @@ def run(ctx):
     quick = ctx.tier == "quick"
     r1 = vlib.tlc_check(ctx.scratch, "WriteImpl", "WriteImpl_r1.cfg", workers=4)
     ra = vlib.tlc_check(ctx.scratch, "WriteImpl", "WriteImpl_nolock.cfg", workers=1, expect_violation="WholeMessages")
-    ctx.log("R1: WriteImpl %d distinct states: one transport write at a time, whole messages, per-writer order, exactly once; without the lock WholeMessages is violated, as it must" % r1["distinct"])
+    rb = vlib.tlc_check(ctx.scratch, "WriteImpl", "WriteImpl_perpart.cfg", workers=1, expect_violation="WholeMessages")
+    ctx.log("R1: WriteImpl %d distinct states: one transport write at a time, whole messages, per-writer order, exactly once; without the lock, or with the lock released between the transport writes of one message, WholeMessages is violated, as it must" % r1["distinct"])
     if ctx.replay:
         cases = [json.load(open(ctx.replay))["case"]]
         nconc = 0
